@@ -85,24 +85,26 @@ def regen(ctx):
 GENERATORS = [regen]
 
 
-# local work-around (BUILDING.md: no edits to common code): the open findings of this property live in
-# fixes/known_C11.jsonl until they are merged into /verif/known_findings.jsonl; read both (entries de-duplicated by id)
+# local work-around (BUILDING.md: no edits to common code): findings recorded in fixes/known_C11*.jsonl count as known until
+# they are merged into /verif/known_findings.jsonl (entries de-duplicated by id)
 def _load_known_with_local(pid, _orig=common.load_known):
     import json
     out = _orig(pid)
-    f = common.VERIF / "fixes" / "known_C11.jsonl"
-    if pid == ID and f.exists():
+    if pid == ID:
         have = {e.get("id") for e in out}
-        for line in f.read_text().splitlines():
-            line = line.strip()
-            if line and not line.startswith("#"):
-                e = json.loads(line)
-                if e.get("property") == pid and e.get("id") not in have:
-                    out.append(e)
+        for f in sorted((common.VERIF / "fixes").glob("known_C11*.jsonl")):
+            for line in f.read_text().splitlines():
+                line = line.strip()
+                if line and not line.startswith("#"):
+                    e = json.loads(line)
+                    if e.get("property") == pid and e.get("id") not in have:
+                        have.add(e.get("id"))
+                        out.append(e)
     return out
 
 
 common.load_known = _load_known_with_local
+
 
 # slots excused in Props/C11.lean (kept in step by hand; only used to explain a failing table obligation)
 LEAN_EXCUSED = {"@DOCREF", "@DOCTYPE", "DIAG-VARIABLES/DIAG-VARIABLE", "DIAG-VARIABLES/DIAG-VARIABLE-REF", "VARIABLE-GROUPS/VARIABLE-GROUP",
@@ -136,7 +138,7 @@ def gen_xml(seed, idx, n_comp=4):
 
 
 def open_db(src, seed=0):
-    """src: 'example:<file name>' | 'rich:<name>' | 'richall' | 'gen:<idx>'"""
+    """src: 'example:<file name>' | 'rich:<name>' | 'richall' | 'seq:<name>' | 'gen:<idx>'"""
     from odxtools.database import Database
     kind, _, arg = src.partition(":")
     with warnings.catch_warnings():
@@ -156,6 +158,8 @@ def open_db(src, seed=0):
                 db._process_xml_tree(ElementTree.fromstring(R.DOCS[n]()))
             db.refresh()
             return db
+        if kind == "seq":
+            return R.load_docs(R.seq_variants()[arg])
         if kind == "gen":
             xml, _ = gen_xml(seed, int(arg))
             db = Database()
@@ -356,13 +360,18 @@ def _wpool(srcs):
 
 
 def _wperturb(task):
-    src, path, cls, fname, k, variant, donors = task
+    src, path, cls, fname, k, variant, donors, family = task
     try:
         db, base = _wdb(src)
-        r = L.apply_and_roundtrip(db, path, fname, k, _wpool(donors), variant_index=variant, base=base)
+        r = L.apply_and_roundtrip(db, path, fname, k, _wpool(donors), variant_index=variant, base=base, family=family)
     except Exception as e:
         r = {"status": "skipped", "kind": None, "diffs": [], "tried": 0, "why": "harness:" + type(e).__name__ + ":" + str(e)[:120]}
-    r.update(src=src, path=path, cls=cls, field=fname, k=k)
+    r.update(src=src, path=path, cls=cls, field=fname, k=k, family=family)
+    if family == "falsy" and "decl" not in r:
+        try:
+            r["decl"] = L.declaring_class(L.resolve_path(_wdb(src)[0], path), fname)
+        except Exception:
+            r["decl"] = cls
     return r
 
 
@@ -372,6 +381,91 @@ def _wroundtrip(task):
         return roundtrip(src, seed)
     except Exception as e:
         return {"src": src, "findings": [("harness-input", ["roundtrip"], L.err_class(e), str(e)[:200])], "objects": 0, "classes": [], "ok": False, "fields": 0}
+
+
+# ---- write-sequence family: several different databases written one after the other by ONE process
+def seq_sources():
+    return ["seq:" + n for n in R.seq_variants()]
+
+
+def seq_findings(src, seed, ref_members=None):
+    """write -> load -> compare with the source; optionally compare the ODX members with those of a write in a fresh process"""
+    out = []
+    try:
+        db = open_db(src, seed)
+    except Exception as e:
+        return [("harness-input", ["open"], L.err_class(e), str(e)[:200])], None
+    pdx, err = L.write_db(db)
+    if pdx is None:
+        return [("write-raises", ["write-sequence"], "write-raises", err)], None
+    members = L.odx_members(pdx)
+    db2, err = L.load_pdx_bytes(pdx)
+    if db2 is None:
+        out.append(("write-sequence", ["reload"], "xml-parse-error" if err.startswith("xml-parse-error") else "reload-raises", err))
+    else:
+        for d in L.diff(L.db_tree(db, resolve=True), L.db_tree(db2, resolve=True), limit=20):
+            out.append(("write-sequence", [feature_of(d)], observed_of(d), f"{d['path']}: {d['left']} -> {d['right']}"))
+    if ref_members is not None and members != ref_members:
+        n = next((k for k in sorted(set(members) | set(ref_members)) if members.get(k) != ref_members.get(k)), "?")
+        a = (ref_members.get(n) or b"").decode("utf-8", "replace").splitlines()
+        b = (members.get(n) or b"").decode("utf-8", "replace").splitlines()
+        i = next((j for j, (x, y) in enumerate(zip(a, b)) if x != y), min(len(a), len(b)))
+        out.append(("write-sequence", ["bytes-differ-from-fresh-process"], "differs",
+                    f"{n} line {i + 1}: alone {a[i][:140] if i < len(a) else '<eof>'} | in sequence {b[i][:140] if i < len(b) else '<eof>'}"))
+    return out, members
+
+
+def _wreference(task):
+    """(fresh process) the ODX members a database gives when it is the only one this process ever writes"""
+    src, seed = task
+    warnings.simplefilter("ignore")
+    try:
+        f, members = seq_findings(src, seed)
+        return src, members
+    except Exception:
+        return src, None
+
+
+def _wsequence(task):
+    """(fresh process) write the databases in the given order; -> [(src, findings)]"""
+    order, seed, *rest = task
+    refs = rest[0] if rest else {}
+    warnings.simplefilter("ignore")
+    res = []
+    for src in order:
+        try:
+            f, _ = seq_findings(src, seed, refs.get(src))
+        except Exception as e:
+            f = [("harness-input", ["sequence"], L.err_class(e), str(e)[:200])]
+        res.append((src, f))
+    return res
+
+
+def write_sequences(ctx, rng, n_orders):
+    srcs = seq_sources() + ["example:" + f.name for f in example_files()] + ["rich:rmeta", "rich:rhard"]
+    mpctx = mp.get_context("fork")
+    with mpctx.Pool(min(8, len(srcs)), maxtasksperchild=1) as pool:       # one fresh process per task
+        refs = {s: m for s, m in pool.map(_wreference, [(s, ctx.seed) for s in srcs], chunksize=1) if m is not None}
+        orders = [list(srcs), list(reversed(srcs))]
+        for _ in range(n_orders):
+            orders.append(rng.sample(srcs, len(srcs)))
+        # every ordered pair of the small variants occurs adjacently in some order
+        small = seq_sources()
+        orders.append([x for a in small for b in small if a != b for x in (a, b)])
+        results = pool.map(_wsequence, [(o, ctx.seed, refs) for o in orders], chunksize=1)
+    for order, res in zip(orders, results):
+        ctx.histo("write_sequence_length", len(order))
+        for i, (src, findings) in enumerate(res):
+            ctx.case(("sequence", tuple(order[:i + 1])), nontrivial=i > 0)
+            for clause, feats, obs, detail in findings:
+                if clause == "harness-input":
+                    ctx.histo("unusable_input", "sequence:" + obs)
+                    continue
+                ctx.violate(clause, feats + ["after-other-writes"] if i > 0 else feats, obs,
+                            {"kind": "sequence", "order": order[:i + 1], "seed": ctx.seed, "detail": detail},
+                            f"writing {src} as number {i + 1} of the sequence {order[:i + 1]} in one process: {clause} {feats} {obs}: {detail}"[:500])
+    ctx.count("write_sequences", len(orders))
+    ctx.count("write_sequence_writes", sum(len(o) for o in orders))
 
 
 def enumerate_sites(srcs, seed, per_field, rng):
@@ -400,12 +494,16 @@ def enumerate_sites(srcs, seed, per_field, rng):
 
 def perturb_features(r):
     cls = "OdxLinkRef" if (r["field"] == "ref_docs") else r["cls"]
+    if r.get("family") == "falsy":      # one signature per declaring class: LONG-NAME of 60 element classes is one template line
+        return [f"{r.get('decl') or cls}.{r['field']}", r.get("kind") or "falsy"]
     return [f"{cls}.{r['field']}"]
 
 
 def report_perturbation(ctx, r):
     """turn one perturbation result into bookkeeping / a violation"""
     st = r["status"]
+    if r.get("family") == "falsy" and st == "skipped" and r.get("why") == "no-variant":
+        return          # not a scalar field
     ctx.histo("perturbation_status", st)
     ctx.histo("perturbation_kind", r.get("kind"))
     ctx.case(("perturb", r["src"], r["path"], r["field"], str(r.get("value"))), nontrivial=st in ("same", "diff", "xml-parse-error"))
@@ -414,7 +512,7 @@ def report_perturbation(ctx, r):
             ctx.histo("perturbation_skipped_why", (r.get("why") or "").split(":")[0] + ":" + ((r.get("why") or "").split(":") + ["", ""])[1][:30])
         return
     w = {"kind": "perturb", "src": r["src"], "path": r["path"], "cls": r["cls"], "field": r["field"], "k": r["k"], "variant": r.get("variant"),
-         "value": r.get("value"), "seed": ctx.seed}
+         "value": r.get("value"), "seed": ctx.seed, "family": r.get("family", "default")}
     feats = perturb_features(r)
     if st == "diff":
         own = [d for d in r["diffs"] if d["field"] == r["field"]] or r["diffs"]
@@ -902,8 +1000,11 @@ def run(ctx):
         gens = [f"gen:{i}" for i in range(n_gen)]
     except Exception as e:
         ctx.notes.append("harness/odxgen not importable (" + type(e).__name__ + "): generated documents skipped")
-    whole = examples + rich + ["rich:rvars", "richall"] + gens
+    whole = examples + rich + ["rich:rvars", "richall"] + seq_sources() + gens
     donors = examples[:1] + rich
+
+    # ---- 0. write sequences (fresh processes; before this process has written anything)
+    write_sequences(ctx, ctx.sub_rng("sequence"), 6 if big else 2)
 
     with mp.get_context("fork").Pool(nproc, initializer=_winit, initargs=(str(common.REPO), ctx.seed)) as pool:
         # ---- 1. whole-database round trips (the main clause)
@@ -945,9 +1046,11 @@ def run(ctx):
         missing_corpus = [c for c in CORPUS if c not in first]
         if missing_corpus:
             ctx.notes.append("corpus sites not present in the databases any more: " + str(missing_corpus[:5]))
-        jobs = [(s, p, c, f, k, None, donors) for (s, p, c, f, k) in corpus + tasks]
+        jobs = [(s, p, c, f, k, None, donors, "default") for (s, p, c, f, k) in corpus + tasks]
         if big:   # a second value per field (other meta string / the other boolean / 0 instead of 3 ...)
-            jobs += [(s, p, c, f, k + 1, None, donors) for (s, p, c, f, k) in tasks if k == 0]
+            jobs += [(s, p, c, f, k + 1, None, donors, "default") for (s, p, c, f, k) in tasks if k == 0]
+        # falsy-but-present boundary values (0, 0.0, False, "") for every scalar field: `{% if x %}` vs `{% if x is not none %}`
+        jobs += [(s, p, c, f, k, None, donors, "falsy") for (s, p, c, f, k) in tasks if k <= (1 if big else 0)]
         results = pool.map(_wperturb, jobs, chunksize=8)
         for r in results:
             report_perturbation(ctx, r)
@@ -1020,8 +1123,12 @@ def replay(ctx, data):
             except Exception:
                 pass
         base = L.baseline(db) or frozenset()
-        r = L.apply_and_roundtrip(db, w["path"], w["field"], w.get("k", 0), pool, variant_index=w.get("variant"), base=base)
+        r = L.apply_and_roundtrip(db, w["path"], w["field"], w.get("k", 0), pool, variant_index=w.get("variant"), base=base,
+                                  family=w.get("family", "default"))
         return r["status"] in ("same", "skipped")
+    if kind == "sequence":
+        res = _wsequence((w["order"], seed))
+        return not any(f for _, f in res)
     if kind == "order":
         if w["src"].startswith("example:"):
             with zipfile.ZipFile(common.REPO / "examples" / w["src"].split(":", 1)[1]) as z:
